@@ -2,7 +2,10 @@
 # usage: tools_try_mutant.sh <patch.diff> <check args...>   — applies the patch to /repo, runs ./check, reverts
 set -u
 P=$1; shift
-cd /repo || exit 2
+# VERIF_REPO: a scratch copy of the repository to work on instead of /repo (the check builds from it too)
+REPO=${VERIF_REPO:-/repo}
+V=$(cd "$(dirname "$0")" && pwd)
+cd $REPO || exit 2
 if ! git diff --quiet; then echo "/repo is dirty"; exit 2; fi
 if ! git apply "$P" 2>/dev/null; then
   # a failed 3-way apply leaves unmerged paths: restore index and tree from HEAD (the tree was clean)
@@ -10,9 +13,10 @@ if ! git apply "$P" 2>/dev/null; then
   git reset -q
 fi
 # evidence written by a run against a patched tree must not replace the committed evidence
-rm -rf /tmp/evidence.keep; cp -r /verif/evidence /tmp/evidence.keep 2>/dev/null
-cd /verif && ./check "$@"; rc=$?
-rm -rf /verif/evidence; mv /tmp/evidence.keep /verif/evidence 2>/dev/null
-git -C /repo checkout -- . ; git -C /repo clean -fdq src
+K=/tmp/evidence.keep.$$
+rm -rf $K; cp -r $V/evidence $K 2>/dev/null
+cd $V && ./check "$@"; rc=$?
+rm -rf $V/evidence; mv $K $V/evidence 2>/dev/null
+git -C $REPO checkout -- . ; git -C $REPO clean -fdq src
 echo "check exit=$rc"
 exit $rc
